@@ -264,9 +264,10 @@ Proof.
   - (* processes *)
     intros q pr' Hq. apply init_config_procs in Hq. destruct Hq as [i [pr [Hi [-> ->]]]].
     destruct (Hat i pr Hi) as [t [n [Γ [Ht [Hn [Hb [Hsub Hty]]]]]]]. rewrite Hn. simpl.
-    exists (chname i n), t, {[ "" ]}. split; auto. split.
-    + exists [i; 0%nat], t. split; auto. split; [eapply init_delta_lookup; eauto|apply (teq_refl _ _ Hlaws)].
-    + simpl. unfold init_body. rewrite (init_pairs_tops p Hs).
+    exists t, {[ "" ]}. simpl. split; [discriminate|]. split.
+    + constructor; [|constructor].
+      exists [i; 0%nat], t. split; auto. split; [eapply init_delta_lookup; eauto|apply (teq_refl _ _ Hlaws)].
+    + unfold init_body. rewrite (init_pairs_tops p Hs).
       apply (fold_subst_typed _ _ _ _ _ (tops p) Γ); auto.
       * rewrite Htops_ident. exact Hnd.
       * rewrite Forall_forall. intros x Hx. apply elem_of_list_In in Hx. apply elem_of_list_lookup_1 in Hx.
